@@ -1,6 +1,9 @@
 //! Type-checker, transforming an untyped [`crate::ast::Program`] into a typed
 //! [`crate::ast::Program`].
 
+#[cfg(feature = "verif_hooks")]
+use crate::verif_hooks::{HashMap, HashSet};
+#[cfg(not(feature = "verif_hooks"))]
 use std::collections::{HashMap, HashSet};
 
 use crate::{
